@@ -198,6 +198,11 @@ theorem expectedSig_in_table {n : List Nat} {ps rs : List Nat} (h : expectedSig?
     have : p.1 = n := by rw [← hname]; simpa using hpe
     rw [← this]; exact hp
 
+/-- "string-carrying" is not the tool's own notion: for every function of the ABI whose C prototype
+    takes a pointer into guest memory the (probed) tool insists on one signature -/
+theorem C07_pointer_functions_are_checked : ∀ n ∈ abiPointerFns, (expectedSig? n).isSome = true := by
+  decide +kernel
+
 /-- **a string-carrying import with the wrong signature is rejected** — wherever it stands in
     the import section, whatever else the module imports, also when the same function is
     imported a second time with the right signature -/
